@@ -279,6 +279,14 @@ fn enumerate(cfg: &Cfg, shapes: &[Shape], f: &mut dyn FnMut(u64, &str, &str, &[u
                 set_bits(&mut b, off, w, v ^ pat);
                 out(&b, &format!("{fill}.ctxB@{off}"), idx);
                 out(a, &format!("{fill}.ctxA@{off}"), idx);
+                // B once more after an unrelated reply Z (A with its message field inverted): B is decoded
+                // after A and after Z, A after Z... every ordered pair of neighbours occurs
+                let mut z = a.to_vec();
+                for x in z.iter_mut().take(11).skip(4) {
+                    *x = !*x;
+                }
+                out(&z, &format!("{fill}.ctxZ@{off}"), idx);
+                out(&b, &format!("{fill}.ctxB2@{off}"), idx);
             }
         };
         // 1. basic fills, unsealed and (where the sender computes a parity) sealed
@@ -290,6 +298,27 @@ fn enumerate(cfg: &Cfg, shapes: &[Shape], f: &mut dyn FnMut(u64, &str, &str, &[u
             if sealable {
                 finish(&mut b, true);
                 out(&b, &format!("{}.sealed", bg_tag(*bg, j)), &mut idx);
+            }
+        }
+        // 1b. unit codes: every free field wider than one bit holds the value 1 or 2 (in most Mode S fields
+        // code 1 is the code of a ZERO quantity - 0 kt, 0 ft/min - and code 0 means "not available"), the
+        // one-bit fields (signs, status bits) all 0 or all 1: quantities that are zero together
+        for code in [1u64, 2] {
+            for sign in [0u64, 1] {
+                let mut b = background(s.nbytes, Bg::Zeros);
+                for &(off, w) in s.free.iter() {
+                    if sealable && off + w > nbits - 24 {
+                        continue;
+                    }
+                    if w == 1 {
+                        set_bits(&mut b, off, w, sign);
+                    } else if w < 24 {
+                        set_bits(&mut b, off, w, code);
+                    }
+                }
+                pin(&mut b);
+                finish(&mut b, sealable);
+                out(&b, &format!("units{code}.s{sign}{}", if sealable { ".sealed" } else { "" }), &mut idx);
             }
         }
         // 2. seeded random fills
@@ -1135,7 +1164,18 @@ fn c07_record(kind: &str, idx: u64, cls: &str, b: &[u8], m: &Message, tm: &Timed
     if let Some(J::Str(fs)) = tree_t.as_ref().and_then(|t| get(t, "frame")) {
         match hex::decode(fs) {
             Ok(bytes2) => {
-                let c = call_try_from(&bytes2);
+                // whoever reads a recorded line decodes its hex in ANOTHER context: Comm-B replies (whose
+                // register is inferred) and a sample of the rest are decoded again on a fresh thread
+                let fresh = (bytes2.len() == 14 && matches!(bytes2[0] >> 3, 20 | 21)) || idx % 64 == 0;
+                let c = if fresh {
+                    let b3 = bytes2.clone();
+                    match std::thread::spawn(move || call_try_from(&b3)).join() {
+                        Ok(c) => c,
+                        Err(_) => Call { out: "panic", text: String::new(), at: String::new(), msg: None, used: -1 },
+                    }
+                } else {
+                    call_try_from(&bytes2)
+                };
                 re_out = c.out;
                 if let Some(m2) = &c.msg {
                     let (s2, j2) = to_json(&timed(m2, &bytes2));
